@@ -109,8 +109,11 @@ def generate(rng, idx, tier, variant):
         nm = rng.choice(names)
         via = rng.choice(handles[nm])
         base += 11
-        kind = rng.choice(['setattr', 'setattr', 'setitem', 'setitem_label', 'setitem_slice', 'set_pos', 'replace_values', 'get', 'get', 'solve', 'to_dataframe', 'contains_dir'])
+        kind = rng.choice(['setattr', 'setattr', 'setitem', 'setitem_label', 'setitem_slice', 'set_pos', 'replace_values', 'get', 'get', 'solve', 'to_dataframe', 'contains_dir', 'near_miss'])
         op = {'op': kind, 'name': nm, 'via': via}
+        if kind == 'near_miss':
+            # a misspelt name (of the variable or of one of its aliases): refused under strict, on both twins alike
+            op['typo'] = rng.choice([via + 'x', via.lower() + '_', via[:-1] + 'Q' if len(via) > 1 else via + 'q', 'zz' + via])
         if kind in ('setattr', 'setitem'):
             r = rng.random()
             if r < 0.4:
@@ -263,6 +266,15 @@ def execute(schedule, ctx):
     if ambiguous:
         ctx.probe('preferred:ambiguous')
         chk('preferred/ambiguous-rejected', isinstance(errA, ValueError), {'exc': type(errA).__name__ if errA else None, 'preferred': spec['preferred'], 'aliases': al})
+        # ... every time, not only the first (copies and reindexed results are made by constructing the class again)
+        try:
+            probes.LineBudget([REPO + '/fsic'], limit=BUDGET, mode='stop').run(construct_A)
+            err2 = None
+        except probes.LineBudget.Exceeded:
+            err2 = None
+        except Exception as e:
+            err2 = e
+        chk('preferred/ambiguous-rejected-on-retry', isinstance(err2, ValueError), {'exc': type(err2).__name__ if err2 else None, 'preferred': spec['preferred'], 'aliases': al})
         ctx.outcome('construct', 'ambiguous:' + (type(errA).__name__ if errA else 'accepted'))
         return
     if route == 'from_dataframe':
@@ -411,6 +423,16 @@ def execute(schedule, ctx):
             if spec.get('tracer'):
                 okt, where = _traces_equal(A, K)
                 chk('solve/trace-through-alias-equals-trace-through-name', okt, {'where': where, 'trace': op.get('trace')})
+        elif kind == 'near_miss':
+            typo = op['typo']
+            taken = set(A.__dict__['index']) | set(A.__dict__['aliases']) | set(A.__dict__['_attributes']) | set(dir(type(A)))
+            if typo in taken or typo.startswith('_'):
+                continue
+            strict_now = bool(A.__dict__['_strict'])
+            ra, rk = both(lambda: setattr(A, typo, 1), lambda: setattr(K, typo, 1))
+            if strict_now:
+                ctx.probe('strict-refuses-misspelt-alias-or-name')
+                chk('near_miss/refused-under-strict', ra == ('exc', 'AttributeError') or ra == ('exc', 'NotImplementedError'), {'typo': typo, 'aliased': ra, 'canonical': rk})
         elif kind == 'to_dataframe':
             do_dataframe(A, K, spec, op, names, chk, ctx)
             ra = rk = ('ok', None)
